@@ -200,6 +200,7 @@ def run(ctx, rep):
         if len(a) != 1 or len(b) != 1:
             rep.ob("section-decision", "allocator-sites", False, f"{len(a)} RELR / {len(b)} RELA(relative) allocation sites in process_relocation", pr.file, pr.line)
         else:
+            _field_width(rep, P, F, pr, a + b)
             atoms = decision_atoms(P, F, pr, a, b)
             en = [x for x in atoms if render(x[1]).startswith("is_relr_enabled(")]
             par = [x for x in atoms if x not in en]
@@ -537,6 +538,52 @@ def _no_raw(rep, P, F):
                     if dbi in reach and ("raw_value" in dv or "plt_address" in dv) and "write_address_relocation" not in dv:
                         raws.append((pr.blocks[dbi]["t"].get("l"), dv))
     rep.ob("no-raw-address", "process_resolution", len(avoid) >= 2 and not raws, "on the (is_address, relocatable) edges every GOT word comes from write_address_relocation or is 0 with a symbol-based relocation" if not raws else f"raw GOT stores: {raws}", pr.file, pr.line)
+
+
+def _field_width(rep, P, F, pr, sites):
+    """A RELATIVE/RELR dynamic relocation makes the loader rewrite a whole 8-byte word. Reserving one for a narrower static relocation
+    (R_X86_64_32 & co. in a writable section of a PIE) lets the loader clobber the bytes after the field: the image after relocation is not
+    the link-time image shifted by the base (genuine defect, fixed in /repo 7a0558c: such inputs are now rejected, as GNU ld and lld do)."""
+    rep.rule("relative-field-width", "in process_relocation every reservation of a RELR / relative RELA entry for a section relocation lies on the edge where the "
+             "relocation's size is RelocationSize::ByteSize(8): narrower absolute relocations never get an 8-byte relative dynamic relocation")
+    cfg = P.cfg(pr)
+    flow_pr = P.flow(pr)
+    ef = cfg.edge_facts()
+    for site in sites:
+        ok = False
+        seen = []
+        for sb, lab in ef.get(site, ()):
+            t = pr.blocks[sb]["t"]
+            if t["k"] != "switch" or t["d"][0] == "k":
+                continue
+            proj = t["d"][1][1]
+            if "@ByteSize" in proj and proj[-1] == ".0" and any(x == ".size" for x in proj):
+                seen.append(lab)
+                if lab == 8:
+                    ok = True
+        if not ok:
+            # `size == RelocationSize::ByteSize(8)` / `!=` through the derived PartialEq
+            for sb, lab in ef.get(site, ()):
+                src = switch_source_call(pr, flow_pr, sb)
+                if not src or not (src[0].endswith("PartialEq>::eq") or src[0].endswith("PartialEq>::ne") or src[0].endswith("PartialEq::eq") or src[0].endswith("PartialEq::ne")):
+                    continue
+                labs = switch_bool_labels(pr, flow_pr, cfg, sb)
+                truth = labs.get(lab)
+                ct = src[2]
+                leaves = set()
+                for a in ct["args"]:
+                    leaves |= flow_pr.deep_origins(a)
+                is_size = any(x[0] == "agg" and str(x[1]).endswith("RelocationSize::ByteSize") for x in leaves)
+                has8 = any(x[0] == "const" and x[1] == 8 for x in leaves)
+                want = src[0].endswith("eq")
+                seen.append((src[0].split("::")[-1], truth))
+                if is_size and has8 and truth is want:
+                    ok = True
+        line = pr.blocks[site]["t"].get("l")
+        kind = "RELR" if site == sites[0] else "RELA"
+        rep.ob("relative-field-width", f"process_relocation:{kind}", ok,
+               "reservation only for 8-byte fields" if ok else f"the reservation is not guarded by size == ByteSize(8) (size edges seen: {seen}): an R_X86_64_32-style "
+               "relocation in a writable section of a PIE would get an 8-byte relative relocation and the loader would overwrite the 4 bytes after the field", pr.file, line)
 
 
 def _joined_defs(P, body, flow, op, depth=0):
